@@ -53,6 +53,8 @@ type Scenario struct {
 	StartStalled   bool              `json:"start_stalled"` // the remote's accept queue is full before the peer starts
 	StartRefused   bool              `json:"start_refused"` // nothing listens on the remote's port before the peer starts
 	FinalCloseMs   int               `json:"final_close_ms"` // how long the teardown waits for Close (default 8000)
+	NilHandler     bool              `json:"nil_handler"`   // OnEstablished returns a nil UpdateMessageHandler
+	OnCloseWrite   string            `json:"onclose_write"` // body to WriteUpdate from inside OnClose (recorded as write "onclose")
 	FirstOnly      bool              `json:"first_only"` // plugin script (on_open, handler, delays) applies to the first session only
 }
 
@@ -66,6 +68,7 @@ type ConnRec struct {
 	Name     string `json:"name"`
 	Dir      string `json:"dir"` // "in" (remote dialled corebgp) or "out" (corebgp dialled remote)
 	Msgs     []Msg  `json:"msgs"`
+	Sent     []Msg  `json:"sent"`    // what the scripted remote wrote: type octet (0 if shorter than a header), time just before the write
 	Garbage  string `json:"garbage"` // bytes that did not parse as a message
 	EOF      bool   `json:"eof"`
 	EOFAt    int64  `json:"eof_at"`
@@ -193,6 +196,9 @@ func (p *plugin) OnEstablished(_ bgp.PeerConfig, w bgp.UpdateMessageWriter) bgp.
 		p.run.recordWrite("est", err, 0)
 	}
 	p.log("OnEstablished", "exit", "")
+	if p.sc.NilHandler {
+		return nil
+	}
 	return func(_ bgp.PeerConfig, u []byte) *bgp.Notification {
 		i := int(p.nUpdate.Add(1)) - 1
 		cp := make([]byte, len(u))
@@ -221,6 +227,15 @@ func (p *plugin) OnEstablished(_ bgp.PeerConfig, w bgp.UpdateMessageWriter) bgp.
 
 func (p *plugin) OnClose(bgp.PeerConfig) {
 	p.log("OnClose", "enter", "")
+	if p.sc.OnCloseWrite != "" {
+		p.run.mu.Lock()
+		w := p.run.writer
+		p.run.mu.Unlock()
+		if w != nil {
+			b, _ := hex.DecodeString(p.sc.OnCloseWrite)
+			p.run.recordWrite("onclose", w.WriteUpdate(b), 0)
+		}
+	}
 	p.log("OnClose", "exit", "")
 }
 
@@ -464,6 +479,15 @@ func (r *runner) step(st []any) error {
 		if tc, ok := cr.c.(*net.TCPConn); ok && len(chunks) > 0 {
 			tc.SetNoDelay(true) // nolint: errcheck
 		}
+		{
+			ty := 0
+			if len(b) >= 19 {
+				ty = int(b[18])
+			}
+			cr.mu.Lock()
+			cr.Sent = append(cr.Sent, Msg{T: ty, At: r.ms()})
+			cr.mu.Unlock()
+		}
 		if len(chunks) == 0 {
 			cr.c.Write(b) // nolint: errcheck
 		} else {
@@ -576,12 +600,16 @@ func (r *runner) step(st []any) error {
 				r.srv.Close()
 			case "delete":
 				err = r.srv.DeletePeer(r.remote)
+			case "add":
+				err = r.addPeer()
 			}
 			e := ""
 			if err != nil {
 				e = err.Error()
 			}
-			r.plug.log("API-RETURN", name, "")
+			if name != "add" {
+				r.plug.log("API-RETURN", name, "")
+			}
 			r.mu.Lock()
 			r.res.API = append(r.res.API, APICall{Name: name, Err: e, Ms: time.Since(t0).Milliseconds(), At: at})
 			r.mu.Unlock()
@@ -604,8 +632,15 @@ func (r *runner) step(st []any) error {
 		}
 		b, _ := hex.DecodeString(st[1].(string))
 		t0 := time.Now()
-		err := w.WriteUpdate(b)
-		r.recordWrite("write", err, time.Since(t0))
+		wdone := make(chan error, 1)
+		go func() { wdone <- w.WriteUpdate(b) }()
+		select {
+		case err := <-wdone:
+			r.recordWrite("write", err, time.Since(t0))
+		case <-time.After(5 * time.Second):
+			r.recordWrite("write-stuck", errors.New("did not return"), time.Since(t0))
+			return fmt.Errorf("WriteUpdate did not return within 5 s (deadlock)")
+		}
 	case "writers": // n goroutines x m writes each, bodies tagged goroutine/sequence
 		n, m, sz := num(st[1]), num(st[2]), num(st[3])
 		r.mu.Lock()
@@ -635,7 +670,13 @@ func (r *runner) step(st []any) error {
 			r.wg.Add(1)
 			go func() { defer r.wg.Done(); wg.Wait() }()
 		} else {
-			wg.Wait()
+			done := make(chan struct{})
+			go func() { wg.Wait(); close(done) }()
+			select {
+			case <-done:
+			case <-time.After(10 * time.Second):
+				return fmt.Errorf("WriteUpdate calls did not return within 10 s (deadlock)")
+			}
 		}
 	case "stop_reading": // the remote stops reading this connection (its receive window fills up)
 		if cr := r.conns[st[1].(string)]; cr != nil && cr.c != nil {
@@ -824,7 +865,16 @@ func runScenario(sc *Scenario) *Result {
 		}
 	}
 	for _, st := range sc.Steps {
-		if err := r.step(st); err != nil {
+		// every step is bounded; a step that does not come back within 40 s means something is wedged
+		sdone := make(chan error, 1)
+		go func(st []any) { sdone <- r.step(st) }(st)
+		var err error
+		select {
+		case err = <-sdone:
+		case <-time.After(40 * time.Second):
+			err = fmt.Errorf("step %v did not return within 40 s (wedged)", st[0])
+		}
+		if err != nil {
 			res.Error = err.Error()
 			break
 		}
